@@ -12,7 +12,7 @@ EXTENDS Regex, Json, IOUtils, TLC
 CONSTANT BlockSize
 Obs == JsonDeserialize(IOEnv.VERIF_OBS)
 N == Len(Obs)
-VARIABLES blk, i, culprit
+VARIABLES blk, i, culprit, failing
 
 \* a BMP range that contains the surrogate block: a UTF-16 engine lets it match half of an astral character
 SpansSurrogates(v) ==
@@ -30,12 +30,6 @@ CulpritOf(x) ==
    S_OriginalAgreesWithRe |-> <<"none">>,
    S_Utf16AgreesWithRe |-> <<"none">>]
 
-Blocks == 0..((N - 1) \div BlockSize)
-Init == blk \in Blocks /\ i = 0 /\ culprit = <<>>
-Next == /\ i = 0
-        /\ \E j \in (blk * BlockSize + 1)..(IF (blk + 1) * BlockSize < N THEN (blk + 1) * BlockSize ELSE N) :
-              i' = j /\ culprit' = CulpritOf(Obs[j])
-        /\ UNCHANGED blk
 
 \* strings of scalar values over the case alphabet; a string is named by its position in the enumeration
 \* "shorter first, then lexicographic by position in the alphabet"
@@ -50,24 +44,48 @@ Idx(s, A) == (IF Len(s) = 0 THEN 0 ELSE CountUpTo(Len(A), Len(s) - 1)) + Digits0
 InDomain(x) == x.accepted /\ ~AnyValueAlt(x.parsed, MentionsSurrogate) /\ \A n \in 1..Len(x.alpha) : IsScalar(x.alpha[n])
 SameLanguage16(t, t16, x) == \A s \in Strings(x) : FullMatch(t, s) <=> FullMatch(t16, Utf16(s))
 
-Judged == i > 0
-o == Obs[i]
 
 \* "the rewriting for UTF-16 engines yields a pattern"
-Inv_RewriteYieldsPattern == Judged /\ o.accepted => o.fix = "ok" /\ o.js = "ok"
+C_Inv_RewriteYieldsPattern(o) == o.accepted => o.fix = "ok" /\ o.js = "ok"
 \* "... that matches the UTF-16 code-unit encoding of a string exactly when the original pattern matches the string"
-Inv_SameLanguageUtf16 == Judged /\ InDomain(o) /\ o.fix = "ok" => SameLanguage16(o.parsed, o.fixed, o)
+C_Inv_SameLanguageUtf16(o) == InDomain(o) /\ o.fix = "ok" => SameLanguage16(o.parsed, o.fixed, o)
 \* the same for the text that the schema generators emit (fix_pattern_for_utf16 = parse, rewrite, render)
-Inv_SchemaTextSameLanguage ==
-  Judged /\ InDomain(o) /\ o.js = "ok" => o.js_reparsed /\ (o.js_tree = o.fixed \/ SameLanguage16(o.parsed, o.js_tree, o))
+C_Inv_SchemaTextSameLanguage(o) ==
+  InDomain(o) /\ o.js = "ok" => o.js_reparsed /\ (o.js_tree = o.fixed \/ SameLanguage16(o.parsed, o.js_tree, o))
 \* S: Python `re` agrees with Regex.tla on the original text over scalar strings, and on the rewritten text over
 \* code-unit strings
-S_OriginalAgreesWithRe ==
-  Judged /\ InDomain(o) /\ o.orig_compiles =>
+C_S_OriginalAgreesWithRe(o) ==
+  InDomain(o) /\ o.orig_compiles =>
      SeqToSet(o.re_orig_full) = {Idx(s, o.alpha) : s \in {u \in Strings(o) : FullMatch(o.parsed, u)}}
-S_Utf16AgreesWithRe ==
-  Judged /\ InDomain(o) /\ o.js = "ok" /\ o.js_reparsed /\ o.js_compiles =>
+C_S_Utf16AgreesWithRe(o) ==
+  InDomain(o) /\ o.js = "ok" /\ o.js_reparsed /\ o.js_compiles =>
      SeqToSet(o.re_js_full16) = {Idx(s, o.alpha) : s \in {u \in Strings(o) : FullMatch(o.js_tree, Utf16(u))}}
+
+\* every clause is evaluated once per observation, when the observation is taken up (Next): `failing` is the set of
+\* clauses the observation violates.  The invariants only look the names up, so that TLC -- which reports the first
+\* violated invariant of a state only -- still hands over *all* violated clauses of the case with the state it prints
+\* (a clause under a known finding cannot mask another clause on the same case).
+ClauseNames == {"Inv_RewriteYieldsPattern", "Inv_SameLanguageUtf16", "Inv_SchemaTextSameLanguage", "S_OriginalAgreesWithRe", "S_Utf16AgreesWithRe"}
+Holds(n, x) ==
+  CASE n = "Inv_RewriteYieldsPattern" -> C_Inv_RewriteYieldsPattern(x)
+    [] n = "Inv_SameLanguageUtf16" -> C_Inv_SameLanguageUtf16(x)
+    [] n = "Inv_SchemaTextSameLanguage" -> C_Inv_SchemaTextSameLanguage(x)
+    [] n = "S_OriginalAgreesWithRe" -> C_S_OriginalAgreesWithRe(x)
+    [] n = "S_Utf16AgreesWithRe" -> C_S_Utf16AgreesWithRe(x)
+FailingOf(x) == {n \in ClauseNames : ~Holds(n, x)}
+
+Blocks == 0..((N - 1) \div BlockSize)
+Init == blk \in Blocks /\ i = 0 /\ culprit = <<>> /\ failing = {}
+Next == /\ i = 0
+        /\ \E j \in (blk * BlockSize + 1)..(IF (blk + 1) * BlockSize < N THEN (blk + 1) * BlockSize ELSE N) :
+              i' = j /\ culprit' = CulpritOf(Obs[j]) /\ failing' = FailingOf(Obs[j])
+        /\ UNCHANGED blk
+
+Inv_RewriteYieldsPattern == "Inv_RewriteYieldsPattern" \notin failing
+Inv_SameLanguageUtf16 == "Inv_SameLanguageUtf16" \notin failing
+Inv_SchemaTextSameLanguage == "Inv_SchemaTextSameLanguage" \notin failing
+S_OriginalAgreesWithRe == "S_OriginalAgreesWithRe" \notin failing
+S_Utf16AgreesWithRe == "S_Utf16AgreesWithRe" \notin failing
 
 \* non-vacuity: accepted patterns; patterns whose rewriting changed the tree; among them those matched by some string
 \* with an astral character
